@@ -83,10 +83,10 @@ pub fn shapes(th: bool) -> Vec<Shape> {
     if th {
         // just past the 1 TiB mark, 512-byte sectors, 32 KiB clusters
         v.push(Shape { name: "s512-1TiB", bps: 512, spc: 64, clusters: (1u64 << 40) / 32768 + 1000 });
-        // 4096-byte sectors: the maximal FAT32 cluster count and a FAT larger than 512 MiB
-        v.push(Shape { name: "s4096-maxclusters", bps: 4096, spc: 1, clusters: 0x0FFF_FFF5 });
-        v.push(Shape { name: "s4096-bigfat", bps: 4096, spc: 1, clusters: 0x0800_0001 });
     }
+    // 4096-byte sectors: the maximal FAT32 cluster count and a FAT larger than 512 MiB (quick tier: two free sets each)
+    v.push(Shape { name: "s4096-maxclusters", bps: 4096, spc: 1, clusters: 0x0FFF_FFF5 });
+    v.push(Shape { name: "s4096-bigfat", bps: 4096, spc: 1, clusters: 0x0800_0001 });
     v
 }
 
@@ -223,6 +223,12 @@ pub fn alphabet(cs: u32) -> Vec<Op> {
         Op::CreateFile { base: r, path: s("d/g"), keep: Some(1) },
         Op::Write { h: 1, len: 7 },
         Op::Remount,
+        // entries whose first cluster lies far above 0xFFFF are moved / renamed / reopened
+        Op::Rename { base: r, src: s("f"), dst_base: r, dst: s("r") },
+        Op::Rename { base: r, src: s("f"), dst_base: r, dst: s("d/f") },
+        Op::Rename { base: r, src: s("d"), dst_base: r, dst: s("e") },
+        Op::OpenFile { base: r, path: s("r"), keep: Some(0) },
+        Op::Stats,
     ]
 }
 
@@ -259,15 +265,29 @@ pub fn specs(tier: &str) -> Vec<ExpSpec> {
             sets.push(("low4-last2".into(), vec![3, 4, 5, 6, last - 1, last], vec![("unset", 0xFFFF_FFFF)]));
             sets.push(("last-only".into(), vec![last], vec![("last", last), ("last-1", last - 1)]));
         }
+        // the scan really wraps: the hint sits on the only free cluster near the end, the allocation after it starts at
+        // the (occupied) last cluster, runs off the end and has to continue at cluster 2 while EXTENDING a chain
+        sets.push(("low4-lastm1".into(), vec![3, 4, 5, 6, last - 1], vec![("last-1", last - 1), ("last", last)]));
+        // a first cluster whose low 16 bits are zero (and the clusters around it)
+        {
+            let m = (last - 1) & !0xFFFF;
+            if m > 0x1_0000 {
+                sets.push(("lowword0".into(), vec![m - 1, m, m + 1, m + 2, 3, 4], vec![("on", m), ("before", m - 1)]));
+            }
+        }
         if let Some(c) = at(1 << 32) {
             sets.push(("at4GiB".into(), (c - 2..=c + 3).collect(), vec![("just-before", c - 3), ("on", c)]));
         }
         if let Some(c) = at(1 << 40) {
             sets.push(("at1TiB".into(), (c - 2..=c + 3).collect(), vec![("just-before", c - 3), ("on", c)]));
         }
+        let reduced = !th && sh.name.starts_with("s4096");
         for (sn, set, hints) in &sets {
+            if reduced && !(sn == "low4-last2" || sn == "lowword0") {
+                continue;
+            }
             for (i, (hn, h)) in hints.iter().enumerate() {
-                if !th && i > 1 {
+                if !th && (i > 1 || (reduced && i > 0)) {
                     continue;
                 }
                 let name = format!("{}-free-{sn}-hint-{hn}", sh.name);
